@@ -162,7 +162,7 @@ def rows_rules(ctx, w, S, direct_mut, direct_mark):
                     ok, why = shared.footprint_covered(w, f, info[1], mk, rows_t)
                 if ok is None:
                     continue
-                if not ok:
+                if not ok and info[0] != "whole":      # (the evaluation below keeps the geometry fixed: it says nothing about a re-layout / switch / reset)
                     # the operand-matching form could not establish it (e.g. mode and range selected together by one match):
                     # decide it semantically - evaluate the handler on a small symbolic screen for every parameter value and
                     # cursor position and compare the rows it changes with the rows it marks
